@@ -193,6 +193,7 @@ pub fn run(o: &Opts) -> i32 {
                 mk: &mkc,
                 next_name: 0,
                 tree_qa: Some(&mut treeqa),
+                filter_qa: None,
                 tap: Some(&mut tap),
                 kps: vec![],
                 last_commit_epoch_ok: true,
